@@ -73,6 +73,9 @@ package ratelimiting
 //@   at every select assert [C09.signal.chan] selhassend(ch) && (forall x :: selhassend(x) ==> x == ch)
 // S7: an undelivered signal must not keep Close waiting: the hand-off also watches the context it was given
 //@   at every select assert [C09.signal.watches] selhas(ctx.donech)
+// audit round 3: the hand-off WAITS for the consumer (or the context): no default case, no other way out - a signal that is
+// dropped when the consumer is not ready was already counted as delivered
+//@   at every select assert [C09.signal.blocks] selblocking && selcases == 2
 //@   at every select ghost sent = sent + (selsend ? 1 : 0)
 //@   at every send assert [C09.signal.nobaresend] false
 //@   ensures [C09.signal.once] sent <= 1
@@ -133,6 +136,8 @@ package ratelimiting
 //@   modifies nothing
 //@   at entry ghost sent = 0
 //@   at select#0 assert [C09.add.token.offer] selhassend(c.inputCh) && selhas(c.closeCh)
+// audit round 3: the token hand-off has no other way out (no default, no timeout): a dropped token is a lost Add
+//@   at select#0 assert [C09.add.token.blocks] selblocking && selcases == 2
 //@   at every select assert [C09.add.token.chan] forall x :: selhassend(x) ==> x == c.inputCh
 //@   at every select ghost sent = sent + (selsend ? 1 : 0)
 //@   at every send assert [C09.add.token.nobaresend] false
@@ -152,6 +157,11 @@ package ratelimiting
 // (a Reset/flush API, or `running` being cleared so that a second Run overlaps a handler of the first).
 //@ func (*coalescing).handleTimerFired
 //@   tags C09
+// audit round 3: the hand-off goroutines get the context and the consumer's channel this handler was given (Close cancels that
+// context; a signal started under another context would keep Close waiting for ever), and no handler replaces the channels
+//@   at every before call fireEvent assert [C09.handler.passes] arg1 == ctx && arg2 == ch
+//@   at every store inputCh assert [C09.chans.immutable] false
+//@   at every store closeCh assert [C09.chans.immutable] false
 //@   requires c != nil && inv(c) && ctx != nil
 //@   ensures inv(c)
 //@   ensures [C09.timer.flush] at(U, c.pendingEvents) == 0 && at(U, c.signals) == at(L, c.signals) + (at(L, c.pendingEvents) > 0 ? 1 : 0)
@@ -164,6 +174,11 @@ package ratelimiting
 
 //@ func (*coalescing).handleInputCh
 //@   tags C09
+// audit round 3: the hand-off goroutines get the context and the consumer's channel this handler was given (Close cancels that
+// context; a signal started under another context would keep Close waiting for ever), and no handler replaces the channels
+//@   at every before call fireEvent assert [C09.handler.passes] arg1 == ctx && arg2 == ch
+//@   at every store inputCh assert [C09.chans.immutable] false
+//@   at every store closeCh assert [C09.chans.immutable] false
 //@   requires c != nil && inv(c) && ctx != nil
 //@   ensures inv(c)
 //@   ensures [C09.input.first] at(L, c.hasTimer.v) == 0 ==> (at(U, c.pendingEvents) == 0 && at(U, c.hasTimer.v) != 0
@@ -220,6 +235,13 @@ package ratelimiting
 //@   tags C09
 //@   requires c != nil
 //@   at close#0 assert [C09.close.closes] arg0 == c.closeCh
+// audit round 3: `closed` is set by one compare-and-swap and only its winner closes the channel (a Load followed by a Store
+// lets two concurrent Close calls both close it: panic)
+//@   ghost woncas bool
+//@   at entry ghost woncas = false
+//@   at every call CompareAndSwap ghost woncas = res0
+//@   at every before close assert [C09.close.caswinner] woncas
+//@   at every call Store assert [C09.close.nostore] false
 
 // Close's deferred function: the wait-order obligation. It must not wait for the WaitGroup while holding c.lock, because
 // the goroutines it waits for (Run's loop in handleInputCh / handleTimerFired) need c.lock. This failed on the original
@@ -230,6 +252,12 @@ package ratelimiting
 //@   tags C09
 //@   requires c != nil
 //@   at before call Wait#0 assert [C09.close.nowaitunderlock] !held(c.lock)
+// audit round 3: the positive half of the argument above - the lock is taken and released BEFORE the wait (a goroutine that
+// was being registered under the lock when Close began is then counted)
+//@   ghost passedlock bool
+//@   at entry ghost passedlock = false
+//@   at every call Unlock ghost passedlock = true
+//@   at before call Wait#0 assert [C09.close.barrier] passedlock
 //@   replay template coalescingclose
 //@   replay val dummy = 0
 
@@ -239,6 +267,9 @@ package ratelimiting
 // the derived context, not the caller's.
 //@ func (*coalescing).Run
 //@   tags C09
+// audit round 3: Run takes a token only in its blocking select, where it goes to handleInputCh - never in a non-blocking drain
+//@   at every select assert [C09.run.blocks] selblocking
+//@   at every before recv assert [C09.run.nobarerecv] false
 //@   ghost dctx iface
 //@   ghost sel ref
 //@   requires c != nil && ctx != nil && inv(c)
